@@ -343,13 +343,7 @@ def toValue? : V → Option Cap
   | .f32 _ _ => none
   | .char _ _ => none
   | .optNone _ => some .empty
-  | .optSome v =>
-    match v with
-    | .f32 _ _ | .char _ _ => none
-    | .level t => some (.display t .level)
-    | .traceId n => some (.display (traceIdText n) (.trace n))
-    | .spanId n => some (.display (spanIdText n) (.span n))
-    | v => primLeaf? v
+  | .optSome v => toValue? v
   | .level t => some (.display t .level)
   | .traceId n => some (.display (traceIdText n) (.trace n))
   | .spanId n => some (.display (spanIdText n) (.span n))
@@ -403,15 +397,32 @@ def Hook.structured : Hook → Bool
   | .sval _ | .serde _ => true
   | _ => false
 
-/-- Does the type implement `serde::Serialize` and `sval::Value`? (`isize`/`usize` have no sval impl in sval 2.22.) -/
-def V.hasSerde : V → Bool
-  | .err _ _ | .fmtOnly _ _ => false
-  | _ => true
+mutual
+  /-- Does the Rust type implement `serde::Serialize` (`sval = false`) / `sval::Value` (`sval = true`)? Primitives,
+      std containers and the derived types do when their parts do; the error type, the Display/Debug-only types and
+      `emit::Level` do not; `isize`/`usize` have no sval impl (sval 2.22). -/
+  def V.serializable (sval : Bool) : V → Bool
+    | .err _ _ | .fmtOnly _ _ | .level _ => false
+    | .int t _ => !(sval && (t == .isize || t == .usize))
+    | .optSome v => v.serializable sval
+    | .nvar _ v => v.serializable sval
+    | .seq vs | .tuple vs | .tstruct _ vs | .tvar _ vs => allSerializable sval vs
+    | .map kvs => allSerializableKvs sval kvs
+    | .record _ fs | .svar _ fs => allSerializableFields sval fs
+    | _ => true
+  def allSerializable (sval : Bool) : List V → Bool
+    | [] => true
+    | v :: vs => v.serializable sval && allSerializable sval vs
+  def allSerializableKvs (sval : Bool) : List (V × V) → Bool
+    | [] => true
+    | (k, v) :: kvs => k.serializable sval && v.serializable sval && allSerializableKvs sval kvs
+  def allSerializableFields (sval : Bool) : List (String × V) → Bool
+    | [] => true
+    | (_, v) :: fs => v.serializable sval && allSerializableFields sval fs
+end
 
-def V.hasSval : V → Bool
-  | .err _ _ | .fmtOnly _ _ => false
-  | .int .isize _ | .int .usize _ => false
-  | _ => true
+def V.hasSerde (v : V) : Bool := v.serializable false
+def V.hasSval (v : V) : Bool := v.serializable true
 
 /-- One capture trait applied to one value: `none` = the call site does not type-check;
     `some none` = the hook returned `None` (no property); `some (some c)` = captured. Follows
